@@ -37,7 +37,7 @@ from pyvc import vc, smt, intarith
 from pyvc.nf import NF, NFError
 from pyvc.framework import run_property
 from pyvc.interp import PyRaise, Unsupported, ExcV
-from contracts.common import sym_array, all_paths
+from contracts.common import sym_array, all_paths, same_elements
 from cvc import cparse, oblig
 from cvc.csym import CSym, Arr, Ptr, Struct, Undef, CUnsupported, fresh
 
@@ -348,6 +348,20 @@ def unit_python(ctx):
                     ps = all_paths(it, lambda: it.call_method(w, "call", [x]))
                     okc = len(ps) == 1 and ps[0][0] == "return" and [c[0] for c in calls] == ["write_fft_input", "execute_fft_plan", "read_fft_output"] and tuple(ps[0][1].shape) == want_out
                     ctx.holds("%s call on a correctly shaped input: write, execute, read; result has output_shape" % tag, okc, "%s" % [c[0] for c in calls], fq)
+                    if len(ps) == 1 and ps[0][0] == "return":
+                        # history: a second call on the same plan returns its own array (the first result is not overwritten), the caller's input is not
+                        # written, and the array handed to read_fft_output is the one returned
+                        y1 = ps[0][1]
+                        x2 = sym_array("x2", good)
+                        x2c = x2.copy()
+                        del calls[:]
+                        y2 = it.call_method(w, "call", [x2c])
+                        rd_arg = [c[1][1] for c in calls if c[0] == "read_fft_output"]
+                        wr_arg = [c[1][1] for c in calls if c[0] == "write_fft_input"]
+                        ctx.holds("%s two calls return two different arrays (a result stays valid after the next call)" % tag, y2 is not y1 and not np.shares_memory(y1, y2), "", fq,
+                                  replay=replay_alias(dims, fwd, r2c, inplace, bf))
+                        ctx.holds("%s the array filled by read_fft_output is the array returned" % tag, len(rd_arg) == 1 and getattr(rd_arg[0], "arr", None) is y2, "", fq)
+                        ctx.holds("%s the array read by write_fft_input is the caller's input, which is left unchanged" % tag, len(wr_arg) == 1 and getattr(wr_arg[0], "arr", None) is x2c and same_elements(x2c, x2), "", fq)
     # forward output layout = backward input layout
     for r2c in (0, 1):
         for bf in (0, 1):
@@ -356,6 +370,50 @@ def unit_python(ctx):
             ctx.holds("forward output shape = backward input shape [r2c=%d,batch_first=%d]" % (r2c, bf), tuple(it.getattr(a, "output_shape")) == tuple(it.getattr(b, "input_shape"))
                       and tuple(it.getattr(a, "input_shape")) == tuple(it.getattr(b, "output_shape")), "", fq)
     ctx.assume("FFTWrapper shapes are checked for dims up to rank 4 with even and odd last extent by executing the real constructor on concrete dims (the shape logic has no other input): bounded in rank")
+
+
+def native_fft_module():
+    """ciderpress.lib.fft_plan imported against a do-nothing library object (FFTW is not installed): the Python wrapper runs natively, the C calls are no-ops"""
+    import ciderpress.lib as CL
+    import ciderpress.lib.load as LL
+    orig = (CL.load_library, LL.load_library)
+
+    class F(object):
+        restype = None
+        argtypes = None
+
+        def __call__(self, *a):
+            return 0
+
+    class L(object):
+        def __init__(self):
+            self._f = {}
+
+        def __getattr__(self, name):
+            return self.__dict__["_f"].setdefault(name, F())
+    CL.load_library = LL.load_library = lambda name: L()
+    try:
+        import ciderpress.lib.fft_plan as fp
+    finally:
+        CL.load_library, LL.load_library = orig
+    fp.libfft = L()
+    return fp
+
+
+def replay_alias(dims, fwd, r2c, inplace, bf):
+    def replay(wit):
+        try:
+            mod = native_fft_module()
+        except Exception as e:
+            return {"reproduced": None, "error": "%s: %s" % (type(e).__name__, e)}
+        w = mod.FFTWrapper(list(dims), ntransform=2, fwd=bool(fwd), r2c=bool(r2c), inplace=bool(inplace), batch_first=bool(bf))
+        dt = np.float64 if (r2c and fwd) else np.complex128
+        x1 = np.ones(w.input_shape, dtype=dt)
+        x2 = 2 * np.ones(w.input_shape, dtype=dt)
+        y1 = w.call(x1)
+        y2 = w.call(x2)
+        return {"reproduced": bool(y1 is y2 or np.shares_memory(y1, y2)), "same_object": bool(y1 is y2)}
+    return replay
 
 
 def replay_reject(dims, fwd, r2c, inplace, bf, bshape):
@@ -401,7 +459,7 @@ def replay_reject(dims, fwd, r2c, inplace, bf, bshape):
 
 def units():
     u = [("python", unit_python)]
-    for ndim in (1, 2, 3, 4):
+    for ndim in (1, 2, 3, 4, 5):
         u.append(("plan/ndim%d" % ndim, unit_plan(ndim)))
         u.append(("copy-in/ndim%d" % ndim, unit_copy(ndim, "in")))
         u.append(("copy-out/ndim%d" % ndim, unit_copy(ndim, "out")))
